@@ -405,3 +405,16 @@ Theorem C10_expand_object_entry_other_shapes_are_the_plain_entry : forall s obs,
   DC10.d_expand_object [Wire.VS s] obs = DC10.d_expand [Wire.VS s] obs.
 Proof. exact DC10.expand_object_other_shapes. Qed.
 Print Assumptions C10_expand_object_entry_other_shapes_are_the_plain_entry.
+
+(* ---- the integer kernels of the expansion with Go's int64 semantics explicit (generated/Generated64.v, theories/GenC10.v): on every valid
+   ID no panic, no wrap, value = the model's bounds; a computed wrap witness just outside the grid ---- *)
+From SIDGen Require Generated64.
+Theorem C10_int64_expansion_kernels_fit_on_valid_ids : forall i, valid i ->
+  Generated64.HorizontalZoomMinMax (eh i) (Ids.ex i) (ey i) (ev i) = Some (ZoomCore.hzoom_minmax (eh i) (Ids.ex i) (ey i) (ev i), true) /\
+  Generated64.VerticalZoom_minmax (ev i) (ef i) (eh i) = Some (ZoomCore.vzoom_minmax (ev i) (ef i) (eh i), true).
+Proof. exact int64_expansion_kernels_fit_on_valid_ids. Qed.
+Print Assumptions C10_int64_expansion_kernels_fit_on_valid_ids.
+Example C10_int64_expansion_wraps_outside_the_grid :
+  Generated64.HorizontalZoomMinMax 0 (2 ^ 62) 0 2 = Some ((0, 0, 3, 3), false) /\
+  Generated.HorizontalZoomMinMax 0 (2 ^ 62) 0 2 = (2 ^ 64, 0, 2 ^ 64 + 3, 3).
+Proof. exact int64_expansion_wraps_outside_the_grid. Qed.
